@@ -4,9 +4,9 @@ set -u
 P="$1"; C="$2"; shift 2
 cd /repo || exit 9
 if ! git diff --quiet; then echo "/repo has uncommitted changes"; exit 9; fi
-git apply "$P" || { echo "patch does not apply"; exit 9; }
+git apply "$P" 2>/dev/null || patch -p1 --fuzz=3 -s < "$P" || { echo "patch does not apply"; git checkout -- .; exit 9; }
 cd /verif && ./check "$C" "$@" > /tmp/try_mutant.$$.log 2>&1; rc=$?
-cd /repo && git checkout -- . && git clean -fdq tests/ 2>/dev/null
+cd /repo && git checkout -- . && git clean -fdq tests/ src/ 2>/dev/null
 grep -E '^(VIOLATION|KNOWN-FINDING|INCONCLUSIVE|C[0-9]+ )' /tmp/try_mutant.$$.log | cut -c1-300 | head -12
 rm -f /tmp/try_mutant.$$.log
 echo "exit=$rc"
